@@ -10,6 +10,8 @@ Tie:      function level — the tree SHAPE (batches per level) of the real Tree
           partitions) vs the model and vs pandas; API level — DataFrame/Series reductions (sum … sem, any/all, idxmin/max,
           nunique, value_counts, mode, nlargest/nsmallest, describe, cov/corr, len; both axes; skipna, numeric_only;
           split_every in {2,3,False,None}) vs pandas within rounding tolerance.
+Extension round: lean/DaskModel/Model/CoMoment.lean + Props/C37xStats.lean (cov/corr, var/sem, nunique, describe over exact
+          rationals), sections `covcorr` / `stats` in harness/props/_c37x.py.
 """
 from __future__ import annotations
 
@@ -25,7 +27,7 @@ U.warm()
 PROP = "C37"
 READY = True
 DRIVER = "dm_dfrows"
-LEAN_MODULES = ["DaskModel.Props.C37"]
+LEAN_MODULES = ["DaskModel.Props.C37", "DaskModel.Props.C37xStats"]
 CASE_TIMEOUT_S = 60
 LEVEL_TEXT = (
     "Proved in Lean (every partitioning, empty and all-NA partitions included; every split_every: False, None->8, any int >= 2; "
@@ -36,17 +38,26 @@ LEVEL_TEXT = (
     "partition contributes no partial result; the former refutation max_noskip_refuted is gone), any/all, Series.idxmax/idxmin "
     "(first-best-row monoid; ValueError exactly when pandas raises), value_counts (count of every key; NaN is a key iff "
     "dropna=False), nlargest/nsmallest (top-n tables under merge), (n, sum, sum of squares) as a homomorphic image (exact "
-    "content of var/std/sem). Validated by correspondence only: float rounding (Chan merge for var), min_count, dtypes, "
-    "DataFrame idxmin/idxmax, nunique, mode, describe, cov/corr, axis=1, len (incl. len of selected partitions), value_counts "
-    "ordering/normalize.")
+    "content of var/std/sem). Extension round (Props/C37xStats.lean, exact rationals): split_every_irrelevant_inv (the tree "
+    "theorem for merges that are homomorphic on well-formed partial results only); cov_eq_pandas and corr_unnormalised_eq_pandas "
+    "/ corr_sq_eq_pandas — _cov_corr_chunk/_combine/_agg per ordered pair of columns, pairwise-complete observations, the "
+    "cumulative Chan merge is the sum in the monoid (n, Sx, Sy, Sxy, Sxx, Syy) (cov_corr_combine_exact), NaN exactly where pandas "
+    "gives NaN (min_periods, single complete row; corr as the pair (C, m_x*m_y) under the square root, hence corr^2 and its sign); "
+    "var_eq_pandas (moment_chunk/combine/agg as Var calls them, skipna=True, any ddof), sem_eq_pandas (sem^2 = var/count), "
+    "nunique_eq_pandas (tree path split_out=1, dropna both ways; dedup_value_set), describe_exact_eq_pandas (count, mean pair, "
+    "std^2, min, max together). Validated by correspondence only: float rounding, min_count, dtypes, DataFrame idxmin/idxmax, "
+    "mode, the default shuffle path of nunique (split_out=True), the percentiles of describe, var/sem with skipna=False, axis=1, "
+    "len (incl. len of selected partitions), value_counts ordering/normalize.")
 LEVEL_NOTE = ("Trusted: Lean kernel; integer-cell encoding of columns (labels = positions); pandas as reference for the "
               "per-partition kernels (every Lean kernel — sumK/prodK/maxK/minK/countK/anyK/allK/idxK/countKey/topK — is diffed "
               "against pandas every run); floats compared within rtol 1e-9. Known findings (2): DataFrame.idxmax/idxmin with an "
               "all-NA column inside one partition, and with a string column under skipna=False.")
-TECHNIQUE = "Lean 4 proof (monoid-homomorphism tree-reduction theorem with termination, 12 instances) + differential correspondence (tree shape, chunk/combine/aggregate functions, partition level, API level)"
+TECHNIQUE = "Lean 4 proof (monoid-homomorphism tree-reduction theorem with termination, 12 instances; invariant version with the exact Chan merges of cov/corr and var over Rat, nunique, describe) + differential correspondence (tree shape, chunk/combine/aggregate functions, partition level, API level)"
 ASSUMPTIONS = ["pandas Series.sum/prod/max/min/count/any/all/idxmax/idxmin/value_counts/nlargest/nsmallest on one block = the Lean kernels (validated: reducespec / reduce2spec vs pandas)",
                "idxmaxmin_chunk/_combine/_agg, Max.chunk/Max.combine, M.value_counts/value_counts_combine on real partial results = idxChunk/idxCombine/idxAgg, mmChunk/mmCombine, vcChunk/vcCombine (validated: idxfn / mmfn / vcfn)",
-               "float arithmetic is outside the theorems (exact integers in the model)"]
+               "float arithmetic is outside the theorems (exact integers / rationals in the model)",
+               "_cov_corr_chunk/_combine/_agg, Var.reduction_chunk/_combine/_aggregate, DropDuplicates.chunk/combine/aggregate on real (nested) partial results = pairChunk/pairCombine/covAgg/corrAgg, dfVarChunk/momCombine/momAgg, dedup/flatten (validated: covfn / varfn / statspec dedup; counts and sums exactly, moments within 1e-9)",
+               "pandas DataFrame.cov/corr(min_periods), Series.var/sem(ddof)/nunique(dropna)/describe on one block = covK/corrK/varK/semSqK/nuniqueK/describeK (validated: covspec / statspec)"]
 
 HOWS = ["sum", "prod", "max", "min", "count", "mean"]
 
